@@ -57,6 +57,9 @@ pub struct Cfg {
     pub dirty_limit: Option<u64>,
     pub max_blob_size: u64,
     pub max_data_in_blob: u64,
+    /// size of the runtime's blocking pool (None = tokio default); 1 lets a check own the order of pearl's file operations
+    #[serde(default)]
+    pub blocking_threads: Option<usize>,
 }
 
 impl Default for Cfg {
@@ -73,6 +76,7 @@ impl Default for Cfg {
             dirty_limit: None,
             max_blob_size: 1 << 40,
             max_data_in_blob: 1 << 30,
+            blocking_threads: None,
         }
     }
 }
@@ -119,11 +123,17 @@ impl Cfg {
     }
 
     pub fn runtime(&self) -> tokio::runtime::Runtime {
-        if self.rt_workers == 0 {
-            tokio::runtime::Builder::new_current_thread().enable_time().build().expect("rt")
+        let mut b = if self.rt_workers == 0 {
+            tokio::runtime::Builder::new_current_thread()
         } else {
-            tokio::runtime::Builder::new_multi_thread().worker_threads(self.rt_workers).enable_time().build().expect("rt")
+            let mut b = tokio::runtime::Builder::new_multi_thread();
+            b.worker_threads(self.rt_workers);
+            b
+        };
+        if let Some(n) = self.blocking_threads {
+            b.max_blocking_threads(n.max(1));
         }
+        b.enable_time().build().expect("rt")
     }
 }
 
@@ -172,6 +182,8 @@ pub enum Pred {
     Records3,
     /// true iff there is no active blob
     NoActive,
+    /// a predicate that takes 8 ms (longer than the short deferred-dump times) and answers false: keeps the worker busy
+    SlowNever,
 }
 
 #[async_trait]
@@ -301,6 +313,14 @@ impl<const N: usize> Sut for S<N> {
             Pred::Never => self.0.force_update_active_blob(|_| false).await,
             Pred::Records3 => self.0.force_update_active_blob(|s| s.map_or(false, |s| s.records_count >= 3)).await,
             Pred::NoActive => self.0.force_update_active_blob(|s| s.is_none()).await,
+            Pred::SlowNever => {
+                self.0
+                    .force_update_active_blob(|_| {
+                        std::thread::sleep(std::time::Duration::from_millis(8));
+                        false
+                    })
+                    .await
+            }
         }
     }
     async fn offload(&mut self, needed: usize, level: usize) -> usize {
